@@ -5,7 +5,7 @@
 (* holding an input (as character codes) and what the REAL code returned:  *)
 (*   ref    - ociref.IsValidHost/Repository/Tag/Digest, ParseRelative,     *)
 (*            Parse (+ String of the result), ociregistry.IsValid*         *)
-(*   print  - ociref.Reference{...}.String()                               *)
+(*   print  - ociref.Reference{...}.String() and Parse of that string      *)
 (*   route  - GET <path> served by ociserver.New(recording backend, nil):  *)
 (*            first backend call and its arguments, number of calls, status*)
 (*   client - ociclient ResolveTag/GetTag/GetManifest/GetBlob with a       *)
@@ -40,7 +40,12 @@ RefOk(e) ==
      \* error of the specification, not of the implementation (TLC stops with this message)
      ELSE Assert(Laws(e.s), <<"OciRef law violated on a logged string (specification error)", e.s>>)
 
-PrintOk(e) == e.str = PrintRef(SeqRef(e.p))
+\* the printer, and the round trip: valid parts with a non-empty host print to a string
+\* that Parse gives back as the same parts
+PrintOk(e) ==
+  LET p == SeqRef(e.p) IN
+  /\ e.str = PrintRef(p)
+  /\ (ValidParts(p) /\ p.host # <<>>) => (e.back.ok /\ e.back.ref = e.p /\ e.back.str = e.str)
 
 RouteOk(e) ==
   LET r == Route(e.path) IN
